@@ -33,7 +33,7 @@ def _move_lists(n):
 
 
 def _reorder_ids(ids):
-    d = sorted(set(ids))
+    d = sorted(set(ids), key=repr)
     out = [()]
     out += [(a,) for a in d]
     out += [(a, b) for a in d for b in d if a != b]
@@ -52,7 +52,7 @@ def alphabet(U):
     ops = []
     tasks = range(n)
     seqs = _seqs(n)
-    dids = sorted(set(U.ids))
+    dids = sorted(set(U.ids), key=repr)
     if U.alphabet == 'structure':
         # cheap alphabet that reaches every hierarchy / membership state (also the hidden ones, e.g. stale owners):
         # used as phase 1 of the two-phase deep exploration
@@ -404,7 +404,7 @@ def apply(U, op, facade=None):
         if op[5] is not None:
             kw['successors'] = [T[i] for i in op[5]]
         # the real constructor, run on a pristine (never related) task object of the universe
-        x.__init__(U.ids[op[1]], name=U.names[op[1]], tag='t%d' % op[1], mix=U.mix[op[1]], **kw)
+        x.__init__(U.ids[op[1]], name=U.names[op[1]], tag='t%d' % op[1], mix=U.mix[op[1]], **U.extra[op[1]], **kw)
         return None
     side = f[:4]
     g = f[4:]
